@@ -35,7 +35,7 @@ LEVEL_NOTE = ('Trusted: NumPy, Hypothesis, the descriptor builders. The '
               'is differential); values of op(x) are not judged here. ASTRA '
               'back-ends are not installed (RayTransform runs on skimage).')
 DESIGN_REF = 'DESIGN.md section 5, C03'
-BUDGET = {'quick': 6000, 'thorough': 90000}
+BUDGET = {'quick': 6000, 'thorough': 60000}
 K_TOL = 16
 TOLERANCES = {
     'inplace_vs_outofplace': '|r2-r| <= 16*eps(dtype)*max(|r|,|r2|) per leaf '
@@ -106,13 +106,13 @@ def enumerate_cases(tier):
     """Fixed sweep: every catalogue entry with a few Hypothesis-drawn option
     sets (deterministic: explicit seed), so that no entry depends on luck."""
     return zoo.sweep(lambda n: _case(name=n), _names(tier),
-                     per_entry=3 if tier == 'quick' else 6)
+                     per_entry=5 if tier == 'quick' else 10)
 
 
 EXHAUSTIVE = {
-    'quick': ['catalogue sweep: every zoo entry x 3 seeded draws of its '
+    'quick': ['catalogue sweep: every zoo entry x 5 seeded draws of its '
               'options (the catalogue, not the option space, is exhausted)'],
-    'thorough': ['catalogue sweep: every zoo entry x 6 seeded draws of its '
+    'thorough': ['catalogue sweep: every zoo entry x 10 seeded draws of its '
                  'options (the catalogue, not the option space, is '
                  'exhausted)'],
 }
@@ -505,7 +505,10 @@ def run_case(desc):
         nontrivial = True
     if desc['x'].get('order', 'C') != 'C':
         strata.append('x-' + desc['x']['order'])
-    return Outcome('ok', strata=strata, nontrivial=nontrivial)
+    return Outcome('ok', strata=strata, nontrivial=nontrivial,
+                   notes={'implementation_calls_observed': cnt.n,
+                          'inplace_evaluations': 0 if op.is_functional
+                          else 2})
 
 
 # entries that cannot reach status 'ok': classes documented to offer no
@@ -520,4 +523,11 @@ REQUIRED_STRATA = ['inplace', 'functional', 'x-array', 'x-list', 'x-F',
     ['entry:' + n for n, e in zoo.ENTRIES.items()
      if e.c03 and n not in NEVER_OK]
 
+# introspection diff of the catalogue against the odl package (numbers for
+# the evidence; also available as module constants)
+ZOO_COVERAGE = zoo.introspect()
+CLASSES_TOTAL = ZOO_COVERAGE['classes_total']
+CLASSES_WITH_BUILDER = ZOO_COVERAGE['classes_with_builder']
+CLASSES_EXEMPT = ZOO_COVERAGE['classes_exempt']
+CLASSES_NOT_COVERED = ZOO_COVERAGE['classes_missing']
 ASSUMPTIONS = ASSUMPTIONS + zoo.coverage_statement()
